@@ -663,6 +663,33 @@ def r11_strings_recorded_as_given(ctx, rid='C19.R11', only_field=None, lead=''):
                 ctx.ob(rid, 'recorded-as-given|%s|%s' % (b.nid.replace('pavex::blueprint::', ''), name), not bad, b.loc(bb, st),
                        '%s is built from the argument through %s%s' % (name, cs or 'a plain move', '' if not bad else ' — NOT identity conversions: %s' % bad))
     ctx.floor(rid, 'strings stored in schema values by pavex::blueprint', n, 1 if only_field else 6)
+    # ... and on the way there: a string handed from one builder function to another (Blueprint::domain -> RoutingModifiers::domain) is handed on as given
+    m = 0
+    for b in ctx.fb.bodies('pavex'):
+        if b.is_promoted or '::blueprint::' not in b.nid:
+            continue
+        defs = None
+        for bb, t in b.calls():
+            c = strip_generics(callee(t) or '')
+            if not c.startswith('pavex::blueprint::'):
+                continue
+            for i, (a, ty) in enumerate(zip(t['args'], t.get('aty', []))):
+                if not (ty.endswith('str') or 'alloc::string::String' in ty) or 'Location' in ty:
+                    continue
+                pl = op_place(a)
+                if pl is None:
+                    continue
+                name = '%s#%d' % (c.replace('pavex::blueprint::', ''), i)
+                if only_field is not None and only_field.split('.')[-1] not in c:
+                    continue
+                defs = defs or Defs(b)
+                sl, _ = backward_slice(b, pl['l'], defs)
+                cs = sorted({(x or '?').split('::')[-1].split('<')[0] for x, _, _ in slice_calls(sl)})
+                bad = [x for x in cs if x not in IDENTITY_CONVERSIONS]
+                m += 1
+                ctx.ob(rid, 'handed-on-as-given|%s|%s' % (b.nid.replace('pavex::blueprint::', ''), name), not bad, b.loc(bb, t),
+                       'argument %d of %s is built through %s%s' % (i, c, cs or 'a plain move', '' if not bad else ' — NOT identity conversions: %s' % bad))
+    ctx.count('strings_handed_between_builder_functions', m)
 
 
 TRUNCATING = {'map_while', 'take_while', 'take', 'skip', 'skip_while', 'step_by', 'nth', 'last', 'next', 'find', 'find_map', 'first', 'get', 'split_first',
